@@ -17,28 +17,28 @@ pub struct Item<'a, T> { pub ns: &'a str, pub p: PhantomData<T> }
 impl<'a, T: Serialize> Item<'a, T> {
     pub const fn new(ns: &'a str) -> (r: Self) { Item { ns, p: PhantomData } }
     #[verifier::external_body]
-    pub fn load(&self, s: &Storage) -> (r: StdResult<T>)
-        ensures match r { Ok(v) => T::item_get(s@) == Some(v), Err(_) => T::item_get(s@) is None }
+    pub fn load(&self, store: &Storage) -> (r: StdResult<T>)
+        ensures match r { Ok(v) => T::item_get(store@) == Some(v), Err(_) => T::item_get(store@) is None }
     { unimplemented!() }
     #[verifier::external_body]
-    pub fn may_load(&self, s: &Storage) -> (r: StdResult<Option<T>>)
-        ensures r is Ok, r->Ok_0 == T::item_get(s@)
+    pub fn may_load(&self, store: &Storage) -> (r: StdResult<Option<T>>)
+        ensures r is Ok, r->Ok_0 == T::item_get(store@)
     { unimplemented!() }
     #[verifier::external_body]
-    pub fn save(&self, s: &mut Storage, v: &T) -> (r: StdResult<()>)
-        ensures r is Ok, final(s)@ == T::item_put(old(s)@, Some(*v))
+    pub fn save(&self, store: &mut Storage, data: &T) -> (r: StdResult<()>)
+        ensures r is Ok, final(store)@ == T::item_put(old(store)@, Some(*data))
     { unimplemented!() }
     /// item.rs: `let input = self.load(store)?; let output = action(input)?; self.save(store, &output)?; Ok(output)`
     #[verifier::external_body]
-    pub fn update<A, E>(&self, s: &mut Storage, action: A) -> (r: Result<T, E>)
+    pub fn update<A, E>(&self, store: &mut Storage, action: A) -> (r: Result<T, E>)
         where A: FnOnce(T) -> Result<T, E>, E: From<StdError>
         requires
-            T::item_get(old(s)@) is Some ==> action.requires((T::item_get(old(s)@)->Some_0,)),
+            T::item_get(old(store)@) is Some ==> action.requires((T::item_get(old(store)@)->Some_0,)),
         ensures
-            T::item_get(old(s)@) is None ==> r is Err && final(s)@ == old(s)@,
-            T::item_get(old(s)@) is Some ==> action.ensures((T::item_get(old(s)@)->Some_0,), r),
-            T::item_get(old(s)@) is Some && r is Ok ==> final(s)@ == T::item_put(old(s)@, Some(r->Ok_0)),
-            r is Err ==> final(s)@ == old(s)@,
+            T::item_get(old(store)@) is None ==> r is Err && final(store)@ == old(store)@,
+            T::item_get(old(store)@) is Some ==> action.ensures((T::item_get(old(store)@)->Some_0,), r),
+            T::item_get(old(store)@) is Some && r is Ok ==> final(store)@ == T::item_put(old(store)@, Some(r->Ok_0)),
+            r is Err ==> final(store)@ == old(store)@,
     { unimplemented!() }
 }
 
@@ -153,43 +153,43 @@ pub open spec fn range_of<'a, K: Bounder<'a>, V>(
 // ------------------------------------------------------------------------------ Map<u64, V>
 #[derive(Debug)]
 pub struct Map<'a, K, V> { pub ns: &'a str, pub p: PhantomData<(K, V)> }
-impl<'a, K: Bounder<'a>, V: Serialize> Map<'a, K, V> {
+impl<'a, K: Bounder<'a>, T: Serialize> Map<'a, K, T> {
     pub const fn new(ns: &'a str) -> (r: Self) { Map { ns, p: PhantomData } }
     #[verifier::external_body]
-    pub fn load(&self, s: &Storage, k: K) -> (r: StdResult<V>)
+    pub fn load(&self, store: &Storage, k: K) -> (r: StdResult<T>)
         ensures match r {
-            Ok(v) => V::map_get(s@).dom().contains(k.k64()) && V::map_get(s@)[k.k64()] == v,
-            Err(_) => !V::map_get(s@).dom().contains(k.k64()) }
+            Ok(v) => T::map_get(store@).dom().contains(k.k64()) && T::map_get(store@)[k.k64()] == v,
+            Err(_) => !T::map_get(store@).dom().contains(k.k64()) }
     { unimplemented!() }
     #[verifier::external_body]
-    pub fn may_load(&self, s: &Storage, k: K) -> (r: StdResult<Option<V>>)
+    pub fn may_load(&self, store: &Storage, k: K) -> (r: StdResult<Option<T>>)
         ensures r is Ok, match r->Ok_0 {
-            Some(v) => V::map_get(s@).dom().contains(k.k64()) && V::map_get(s@)[k.k64()] == v,
-            None => !V::map_get(s@).dom().contains(k.k64()) }
+            Some(v) => T::map_get(store@).dom().contains(k.k64()) && T::map_get(store@)[k.k64()] == v,
+            None => !T::map_get(store@).dom().contains(k.k64()) }
     { unimplemented!() }
     #[verifier::external_body]
-    pub fn save(&self, s: &mut Storage, k: K, v: &V) -> (r: StdResult<()>)
-        ensures r is Ok, final(s)@ == V::map_put(old(s)@, V::map_get(old(s)@).insert(k.k64(), *v))
+    pub fn save(&self, store: &mut Storage, k: K, data: &T) -> (r: StdResult<()>)
+        ensures r is Ok, final(store)@ == T::map_put(old(store)@, T::map_get(old(store)@).insert(k.k64(), *data))
     { unimplemented!() }
     #[verifier::external_body]
-    pub fn remove(&self, s: &mut Storage, k: K)
-        ensures final(s)@ == V::map_put(old(s)@, V::map_get(old(s)@).remove(k.k64()))
+    pub fn remove(&self, store: &mut Storage, k: K)
+        ensures final(store)@ == T::map_put(old(store)@, T::map_get(old(store)@).remove(k.k64()))
     { unimplemented!() }
     /// map.rs: `let input = self.may_load(store, k)?; let output = action(input)?; self.save(..); Ok(output)`
     #[verifier::external_body]
-    pub fn update<A, E>(&self, s: &mut Storage, k: K, action: A) -> (r: Result<V, E>)
-        where A: FnOnce(Option<V>) -> Result<V, E>, E: From<StdError>
+    pub fn update<A, E>(&self, store: &mut Storage, k: K, action: A) -> (r: Result<T, E>)
+        where A: FnOnce(Option<T>) -> Result<T, E>, E: From<StdError>
         requires
-            action.requires((map_opt(V::map_get(old(s)@), k.k64()),)),
+            action.requires((map_opt(T::map_get(old(store)@), k.k64()),)),
         ensures
-            action.ensures((map_opt(V::map_get(old(s)@), k.k64()),), r),
-            r is Ok ==> final(s)@ == V::map_put(old(s)@, V::map_get(old(s)@).insert(k.k64(), r->Ok_0)),
-            r is Err ==> final(s)@ == old(s)@,
+            action.ensures((map_opt(T::map_get(old(store)@), k.k64()),), r),
+            r is Ok ==> final(store)@ == T::map_put(old(store)@, T::map_get(old(store)@).insert(k.k64(), r->Ok_0)),
+            r is Err ==> final(store)@ == old(store)@,
     { unimplemented!() }
     #[verifier::external_body]
     pub fn range(&self, s: &Storage, min: Option<Bound<'a, K>>, max: Option<Bound<'a, K>>, order: Order)
-        -> (r: MapRange<K, V>)
-        ensures range_of(V::map_get(s@), min, max, order, r.items@)
+        -> (r: MapRange<K, T>)
+        ensures range_of(T::map_get(s@), min, max, order, r.items@)
     { unimplemented!() }
 }
 pub open spec fn map_opt<V>(m: SMap<u64, V>, k: u64) -> Option<V> {
